@@ -51,9 +51,33 @@ def _src(seed):
     return _SRC[seed]
 
 
-def write_read(recs, blocked, api):
+def write_read(recs, blocked, api, fobj='bytesio'):
     """-> (file bytes, records read back) through the real library"""
     from cardutil import mciipm
+    if fobj != 'bytesio':
+        # a real file on disk for the writer (the writer needs seek(), so only seekable sinks are in its contract),
+        # and the produced bytes read back from a real file, a non-seekable stream or an object with only read();
+        # 'blocked' is passed positionally here
+        from vf import fileobjs
+        f, content, done = fileobjs.writer('file')
+        try:
+            if api == 'class_close':
+                w = mciipm.VbsWriter(f, blocked)
+                for r in recs:
+                    w.write(r)
+                w.close()
+            else:
+                with mciipm.VbsWriter(f, blocked) as w:
+                    w.write_many(recs)
+            data = content()
+        finally:
+            done()
+        src, done = fileobjs.reader(fobj, data)
+        try:
+            back = list(mciipm.VbsReader(src, blocked))
+        finally:
+            done()
+        return data, back
     if api == 'func':
         data = mciipm.vbs_list_to_bytes(recs, blocked=blocked)
         back = mciipm.vbs_bytes_to_list(data, blocked=blocked)
@@ -104,14 +128,15 @@ def check_case(case, acc):
     for n in lens:
         recs.append(content(coding, n, off, case.get('seed', 0)))
         off += n
-    acc.case((tuple(lens) if len(lens) < 8 else (len(lens), lens[0]), coding, blocked, api, case.get('max')),
+    acc.case((tuple(lens) if len(lens) < 8 else (len(lens), lens[0]), coding, blocked, api, case.get('max'),
+              case.get('fobj')),
              nontrivial=True, outcome=('blocked' if blocked else 'vbs'))
     old = config.config.get('MAX_VBS_RECORD_LENGTH')
     try:
         if case.get('max') is not None:
             config.config['MAX_VBS_RECORD_LENGTH'] = case['max']
         try:
-            data, back = write_read(recs, blocked, api)
+            data, back = write_read(recs, blocked, api, case.get('fobj', 'bytesio'))
         except Exception as ex:
             acc.viol('c03.exception.%s' % api, case, repr(ex), 'records written and read back')
             return
@@ -161,6 +186,14 @@ def tasks(tier, seed):
             uni.append({'lens': lens, 'coding': coding})
     for ch in core.chunks(uni, 32):
         ts.append({'kind': 'uniform', 'items': ch, 'seed': seed})
+    # (f) other kinds of file object; files beyond 1 MiB (nothing in the statement bounds the size)
+    q = [1, 4, 1004, 1008, 1012, 2020, 6000]
+    fl = [[a] for a in q] + [[a, b] for a in q for b in q] + [[250] * 100]
+    items = [{'lens': lens, 'fobj': ('file', 'pipe', 'minimal')[i % 3]} for i, lens in enumerate(fl)]
+    items += [{'lens': [6000] * 180, 'fobj': k} for k in ('bytesio', 'file', 'pipe')]
+    items += [{'lens': [5000] * 420, 'fobj': 'bytesio'}, {'lens': [997] * 2100, 'fobj': 'minimal'}]
+    for ch in core.spread(items, 16):
+        ts.append({'kind': 'fileobjs', 'items': ch, 'seed': seed})
     return ts
 
 
@@ -192,6 +225,16 @@ def run_task(task):
                     case = {'lens': it['lens'], 'coding': it['coding'], 'blocked': blocked, 'api': api, 'seed': seed}
                     if i == 0 and blocked and api == 'func':
                         acc.sample(case)
+                    check_case(case, acc)
+    elif task['kind'] == 'fileobjs':
+        for i, it in enumerate(task['items']):
+            for blocked in (False, True):
+                for api in (('class_close', 'class_with') if it['fobj'] != 'bytesio' else APIS):
+                    case = {'lens': it['lens'], 'coding': 'pos', 'blocked': blocked, 'api': api, 'seed': seed,
+                            'fobj': it['fobj']}
+                    if i == 0 and blocked:
+                        acc.sample(case if len(it['lens']) < 20 else dict(case, lens='%d x %d' % (
+                            len(it['lens']), it['lens'][0])))
                     check_case(case, acc)
     elif task['kind'] == 'maxcfg':
         for mx in (10, 1012, 6000, 20000):
